@@ -568,6 +568,24 @@ theorem prof_labels_union_confined (cfg : Cfg) (c : PCtx) (h : ProfCfg cfg c) (c
   obtain ⟨sq, hsq, rfl⟩ := List.mem_map.mp hp
   exact plan_noDate _ _ _ _ _ (hq sq hsq) g hg
 
+/-- **prof_series_union_confined.** `PlanSeries` for two or more selector sets: every operand of the `pre_distinct` union
+    (one `TimeSeriesSelectPlanner` statement per set) scans `profiles_series` with the two date bounds, the hoisted `fp` entry
+    is the first set's selector statement, the selects over them read WITH entries only. -/
+theorem prof_series_union_confined (cfg : Cfg) (c : PCtx) (h : ProfCfg cfg c) (labels : List Bytes)
+    (scripts : List (List Selector × PQuery)) (hq : ∀ p ∈ scripts, Prof.plan "" [] [] p.1 = some p.2) :
+    unionConfined cfg (winProf c) (seriesUnion c labels (scripts.map (fun p => (p.2.globals, p.2.kvs)))) = true := by
+  apply seriesUnion_confined cfg c h
+  intro p hp g hg
+  obtain ⟨sq, hsq, rfl⟩ := List.mem_map.mp hp
+  exact plan_noDate _ _ _ _ _ (hq sq hsq) g hg
+
+/-- **prof_analyze_query_confined.** `ProfileSizePlanner` over `MergeProfilesPlanner` (AnalyzeQuery): the only table reads are
+    those of the merge-profiles statement (`prof_merge_profiles_confined`); the two bracketed sub-selects in the column list
+    read the WITH entries `pre_profile_size` and `fp`. -/
+theorem prof_analyze_query_confined (cfg : Cfg) (c : PCtx) (h : ProfCfg cfg c) (sels : List Selector) (q : PQuery)
+    (hq : Prof.plan "" [] [] sels = some q) : confined cfg (winProf c) (analyzeQuery c q.globals q.kvs) = true :=
+  (analyzeQuery_good cfg c h _ _ (plan_noDate _ _ _ _ _ hq)).confined
+
 /-- **prof_labels_confined.** LabelNames / LabelValues without a selector: `profiles_series_gin` with the two date bounds. -/
 theorem prof_labels_confined (cfg : Cfg) (c : PCtx) (h : ProfCfg cfg c) (col : String) (label : Option Bytes) :
     confined cfg (winProf c) (labelsNoSel c col label) = true :=
